@@ -3,7 +3,7 @@
 // verif:pkg pkg/clusters
 // verif:include syncmap
 // verif:init github.com/kubewharf/kubegateway/pkg/clusters
-// verif:opt unwind=24 witnesses=0 maxpaths=400000
+// verif:opt unwind=24 witnesses=12 maxpaths=400000
 
 package clusters
 
